@@ -120,6 +120,15 @@ SameVal(m, o) ==
          [] m.t \in {"pair", "concat", "range", "slice", "partial"} -> SameVal(m.l, o.l) /\ SameVal(m.r, o.r)
          [] OTHER -> FALSE
 
+(* ---------------------------------------------------------------- the scripted host *)
+\* H = [resolve |-> sequence of [key |-> name, value], apply |-> sequence of [key |-> external number, value]];
+\* a key that is not listed is declined.  <<value>> or <<>>.
+RECURSIVE FindIn(_, _, _)
+FindIn(tab, key, i) == IF i > Len(tab) THEN None ELSE IF tab[i].key = key THEN Some(tab[i].value) ELSE FindIn(tab, key, i + 1)
+HostResolve(H, name) == FindIn(H.resolve, name, 1)
+HostApply(H, n) == FindIn(H.apply, n, 1)
+NoHost == [resolve |-> <<>>, apply |-> <<>>]
+
 (* ---------------------------------------------------------------- association lookup and access *)
 RECURSIVE LookupIn(_, _, _)
 LookupIn(items, sym, i) == IF i > Len(items) THEN None
